@@ -1,6 +1,35 @@
 """Load the mirfacts JSONL fact file and index it."""
 import json, re, pickle, os
 
+_IMPL_RX = re.compile(r'(?:[A-Za-z_][A-Za-z0-9_]*::)*<impl ([^<>]*(?:<[^<>]*>)?[^<>]*)>::')
+
+
+def norm_path(p):
+    """`mod::<impl a::B>::m` -> `a::B::m` (inherent impls written in another module); trait impls untouched."""
+    if '<impl ' not in p:
+        return p
+    def rep(m):
+        inner = m.group(1)
+        if ' for ' in inner:
+            return m.group(0)
+        return inner + '::'
+    return _IMPL_RX.sub(rep, p)
+
+
+def _norm_body(r):
+    r['path'] = norm_path(r['path'])
+    if 'parent' in r:
+        r['parent'] = norm_path(r['parent'])
+    for blks in [r['blocks']] + list(r.get('promoted') or []):
+        for blk in blks:
+            t = blk['t']
+            if t['k'] == 'call' and 'fn' in t['f']:
+                f = t['f']
+                f['fn'] = norm_path(f['fn'])
+                if 'res' in f:
+                    f['res'] = norm_path(f['res'])
+
+
 class Facts:
     def __init__(self, path):
         self.path = path
@@ -15,6 +44,7 @@ class Facts:
                 r = json.loads(line)
                 k = r['rec']
                 if k == 'body':
+                    _norm_body(r)
                     self.bodies[r['path']] = r
                 elif k == 'adt':
                     self.adts[r['path']] = r
